@@ -7,11 +7,15 @@ package main
 import (
 	"bytes"
 	"fmt"
+	"go/ast"
+	goparser "go/parser"
+	"go/token"
 	"io"
 	"os"
 	"path/filepath"
 	"regexp"
 	"sort"
+	"strconv"
 	"strings"
 
 	"github.com/tdewolff/minify/v2"
@@ -287,7 +291,8 @@ func (g *c03Gen) text() {
 			g.sb.WriteString(g.r.Pick([]string{" ", " ", "  ", "\n", " \t"}))
 		}
 		if g.r.Chance(4) {
-			g.sb.WriteString(string(c03GenRefText(g.r, false)))
+			// no raw `<` in text (it would start a tag or be a parse error)
+			g.sb.WriteString(strings.ReplaceAll(string(c03GenRefText(g.r, false)), "<", "&lt;"))
 		} else {
 			g.sb.WriteString(g.r.Pick(c03Words))
 		}
@@ -298,7 +303,7 @@ func (g *c03Gen) text() {
 }
 func (g *c03Gen) comment() {
 	if g.r.Chance(8) {
-		g.sb.WriteString(g.r.Pick([]string{"<!-- c -->", "<!---->", "<!-- a -- b -->", "<!--[if IE]><p>x</p><![endif]-->", "<!--#include x -->", "<!--[if !IE]>--><b>y</b><!--<![endif]-->"}))
+		g.sb.WriteString(g.r.Pick([]string{"<!-- c -->", "<!---->", "<!-- a -- b -->", "<!--[if IE]><p>x</p><![endif]-->", "<!--#include x -->", "<!--[if !IE]>--><!--<![endif]-->"}))
 	}
 }
 
@@ -316,17 +321,17 @@ var c03TagAttrs = map[string][]string{
 }
 var c03AttrVals = map[string][]string{
 	"type":    {"text", "TEXT", "text/javascript", "text/css", "submit", "radio", "checkbox", "module", "text/html", "application/ld+json", " text/javascript ", "Text/JavaScript; charset=utf-8", "application/javascript", "button", "image/png", "text/template"},
-	"method":  {"get", "GET", "post", " get "}, "enctype": {"application/x-www-form-urlencoded", "multipart/form-data", "Text/Plain"}, "shape": {"rect", "RECT", "circle"}, "media": {"all", "ALL", "screen", "print and (x)"},
+	"method":  {"get", "GET", "post", " get "}, "enctype": {"application/x-www-form-urlencoded", "multipart/form-data", "Text/Plain"}, "formenctype": {"application/x-www-form-urlencoded", "multipart/form-data"}, "accept": {"image/*", "image/png, image/jpeg", ".pdf,.doc", "Text/HTML"}, "shape": {"rect", "RECT", "circle"}, "media": {"all", "ALL", "screen", "print and (x)"},
 	"colspan": {"1", "2", "one"}, "rowspan": {"1", "3", "one"}, "span": {"1", "2", "one"}, "value": {"", "on", "ON", "x", "a b", "1"}, "charset": {"utf-8", "UTF-8"}, "http-equiv": {"content-type", " Content-Type ", "refresh"},
 	"content": {"text/html; charset=utf-8", "Text/HTML; Charset=UTF-8", "a, b, c", "width=device-width, initial-scale=1.0", "width=device-width,initial-scale=1.50,maximum-scale=01", "x", ""},
-	"name":    {"keywords", "viewport", " Viewport ", "description", "n", ""}, "href": {"http://x.y/z", "HTTP://X.Y", "https://a.b/?q=1&amp;r=2", "Https://x", " /p a th ", "#f", "data:text/plain;charset=us-ascii,a%20b", "data:,x", "javascript:void(0)", "httpx", "http:/", "mailto:a@b"},
+	"name":    {"keywords", "viewport", "Viewport", "description", "n", ""}, "href": {"http://x.y/z", "HTTP://X.Y", "https://a.b/?q=1&amp;r=2", "Https://x", " /p a th ", "#f", "data:text/plain;charset=us-ascii,a%20b", "data:,x", "javascript:void(0)", "httpx", "http:/", "mailto:a@b"},
 	"src":     {"a.png", " b.js ", "http://x/y.js", "data:image/png;base64,AAAA", "DATA:text/css,a%7Bb%7D", "//cdn/x"}, "action": {"", "/x", "http://x/", " "}, "style": {"", "color:red", " color : red ; ", "a:b;c:d"}, "onclick": {"f()", "javascript:f()", " JavaScript: g() ", "", "a=&quot;b&quot;"},
 	"class":   {"a", " a  b ", "", "a\nb", "x y z"}, "id": {"i", "", " j "}, "dir": {"ltr", ""}, "rel": {"stylesheet", " noopener  noreferrer "}, "target": {"_blank", " my  frame "}, "pattern": {"a  b", "[a-z]+"}, "language": {"javascript"},
 }
 
 func (g *c03Gen) attrValue(name string) string {
-	if vs, ok := c03AttrVals[name]; ok && g.r.Chance(75) {
-		return g.r.Pick(vs)
+	if vs, ok := c03AttrVals[name]; ok && (g.r.Chance(75) || name == "type" || name == "enctype" || name == "formenctype" || name == "accept") {
+		return g.r.Pick(vs) // media types: whitespace inside a type is not a valid value
 	}
 	if g.r.Chance(35) {
 		return string(c03GenRefText(g.r, false))
@@ -339,6 +344,7 @@ func (g *c03Gen) attrs(tag string) {
 	if _, ok := c03TagAttrs[tag]; ok && g.r.Chance(60) {
 		n++
 	}
+	used := map[string]bool{}
 	for i := 0; i < n; i++ {
 		var name string
 		if ta, ok := c03TagAttrs[tag]; ok && g.r.Chance(65) {
@@ -346,6 +352,10 @@ func (g *c03Gen) attrs(tag string) {
 		} else {
 			name = g.r.Pick(c03GlobalAttrs)
 		}
+		if used[name] { // duplicate attributes are a parse error
+			continue
+		}
+		used[name] = true
 		if g.r.Chance(5) {
 			name = strings.ToUpper(name)
 		}
@@ -703,7 +713,7 @@ func c03GenDoc(r *h.RNG, rich bool) []byte {
 	full := r.Chance(45)
 	if full {
 		if r.Chance(80) {
-			g.sb.WriteString(r.Pick([]string{"<!DOCTYPE html>", "<!doctype html>", "<!DOCTYPE html >\n", "<!DOCTYPE HTML PUBLIC \"-//W3C//DTD HTML 4.01//EN\" \"http://www.w3.org/TR/html4/strict.dtd\">"}))
+			g.sb.WriteString(r.Pick([]string{"<!DOCTYPE html>", "<!doctype html>", "<!DOCTYPE html >\n", "<!DOCTYPE html PUBLIC \"-//W3C//DTD HTML 4.01//EN\" \"http://www.w3.org/TR/html4/strict.dtd\">", "<!DOCTYPE html SYSTEM \"about:legacy-compat\">"}))
 		}
 		g.ws()
 		g.open("html")
@@ -867,4 +877,201 @@ func c03DiffAt(a, b []byte) string {
 		hi = len(a)
 	}
 	return fmt.Sprintf("@%d …%s…", i, h.Q(a[lo:hi]))
+}
+
+// ---------- stage: DOM oracle on the real output ----------
+
+// which oracle signatures a document-level trigger can explain
+var c03TrigSigs = map[string]string{
+	"glue": "text-words attr-value", "ctlref": "text-words attr-value text-space", "hexoverflow": "text-words attr-value",
+	"pend": "*", "endomit": "*", "colgroup": "*", "bodystart": "*", "textjoin": "text-words", // a changed tree shifts every later comparison
+	"wsclass": "text-space text-words", "prenl": "raw-text", "attrsem": "attr-missing attr-value", "rawstyle": "raw-text text-space text-words element-structure",
+}
+
+func c03Explains(trigs []string, sig string) string {
+	for _, t := range trigs {
+		for _, s := range strings.Fields(c03TrigSigs[t]) {
+			if s == sig || s == "*" {
+				return t
+			}
+		}
+	}
+	return ""
+}
+
+var c03KnownOfTrig = map[string]string{"glue": "K-C03-1", "ctlref": "K-C03-2", "hexoverflow": "K-C03-3", "pend": "K-C03-4", "endomit": "K-C03-5",
+	"colgroup": "K-C03-6", "bodystart": "K-C03-7", "textjoin": "K-C03-8", "wsclass": "K-C03-9", "attrsem": "K-C03-10", "rawstyle": "K-C03-11", "prenl": "K-C03-12"}
+
+func c03StageDom(c *Ctx, docs [][]byte, names []string, allMasks bool) error {
+	st := c.R.StartStage("dom", "PROPERTY ORACLE independent of the model: input and real html.Minify output (registry without sub-minifiers) parsed by golang.org/x/net/html and compared modulo the documented changes (comments; whitespace that cannot render, judged with the HTML standard's display classes; droppable default/empty attributes; attribute value normalisations) on generated conforming documents, the fixed snippet corpus (all 32 Keep* combinations), /repo/tests/html/corpus and /repo/_benchmarks; a difference is a failing input unless the document falls under the trigger of an open known finding that explains the difference class; non-trivial = output differs from input")
+	open := map[string]bool{}
+	for _, k := range h.Known("C03") {
+		if k.Status == "open" {
+			open[k.ID] = true
+		}
+	}
+	type item struct {
+		name string
+		doc  []byte
+		mask int
+		res  string
+	}
+	var items []item
+	var lines []string
+	for i, doc := range docs {
+		r := c.Rng.Fork()
+		masks := []int{(r.Intn(32) << 2), 0}
+		if allMasks {
+			masks = nil
+			for m := 0; m < 32; m++ {
+				masks = append(masks, m<<2)
+			}
+		} else if len(doc) > 20000 {
+			masks = masks[:1]
+		}
+		toks, lexErr := c03Lex(doc)
+		if lexErr {
+			continue
+		}
+		anyDiff := false
+		for _, mask := range masks {
+			o := c03OptsOf(mask)
+			out, err, crash := c03RunReal(doc, o, false)
+			if crash != "" {
+				c.R.Add(h.Finding{Stage: st.Name, Kind: "crash", What: crash, Input: h.Q(doc), Hex: h.Hex(c03Clip(doc)), Config: o.String()})
+				continue
+			}
+			if err != nil {
+				continue
+			}
+			res := c03oCompare(doc, out, o.oracle())
+			st.Count(fmt.Sprintf("%s [%s]", names[i], o), !bytes.Equal(doc, out))
+			if res != "" {
+				items = append(items, item{names[i], doc, mask, res})
+				anyDiff = true
+			}
+		}
+		if anyDiff {
+			lines = append(lines, "trig.c03.doc "+c03EncodeToks(toks))
+		}
+	}
+	rep, err := h.Eval(lines)
+	if err != nil {
+		return err
+	}
+	k := -1
+	var last []byte
+	var trigs []string
+	for _, it := range items {
+		if !bytes.Equal(it.doc, last) || k < 0 {
+			k++
+			last = it.doc
+			b, ok, _ := h.DecodeReply(rep[k])
+			trigs = nil
+			if ok && string(b) != "none" {
+				trigs = strings.Split(string(b), ",")
+			}
+		}
+		sig := it.res
+		if j := strings.Index(sig, ":"); j > 0 {
+			sig = sig[:j]
+		}
+		o := c03OptsOf(it.mask)
+		if t := c03Explains(trigs, sig); t != "" && open[c03KnownOfTrig[t]] {
+			c.R.ExcludedKnown++
+			st.Tag("known=" + c03KnownOfTrig[t])
+			continue
+		}
+		in := h.Q(it.doc)
+		if len(in) > 1500 {
+			in = it.name
+		}
+		c.R.Add(h.Finding{Stage: st.Name, Kind: "fail", What: "parsed document changed (" + sig + ")", Input: in, Hex: h.Hex(c03Clip(it.doc)), Config: o.String(), Impl: it.res, Model: "triggers: " + strings.Join(trigs, ",")})
+	}
+	st.End()
+	return nil
+}
+
+// ---------- known findings: replay ----------
+
+func c03ReplayKnown(c *Ctx) error {
+	for _, k := range h.Known("C03") {
+		if k.Status != "open" {
+			continue
+		}
+		in := []byte(k.ReplayStr("input"))
+		switch k.ReplayStr("kind") {
+		case "dom":
+			mask := 0
+			if v, ok := k.Replay["mask"].(float64); ok {
+				mask = int(v)
+			}
+			o := c03OptsOf(mask)
+			out, err, crash := c03RunReal(in, o, false)
+			if crash != "" || err != nil {
+				c.R.AddKnown(k.ID, true, k.What, "crash/err: "+crash)
+				continue
+			}
+			res := c03oCompare(in, out, o.oracle())
+			sig := res
+			if j := strings.Index(sig, ":"); j > 0 {
+				sig = sig[:j]
+			}
+			still := res != "" && strings.Contains(","+k.ReplayStr("signature")+",", ","+sig+",")
+			if res != "" && !still {
+				c.R.Add(h.Finding{Stage: "known", Kind: "fail", What: "known finding " + k.ID + " fails with a different signature: " + sig, Input: h.Q(in), Hex: h.Hex(in), Impl: res})
+			}
+			c.R.AddKnown(k.ID, still, k.What, h.Q(out)+" — "+res)
+		case "refs":
+			mode := 0
+			if v, ok := k.Replay["mode"].(float64); ok {
+				mode = int(v)
+			}
+			out := c03RealRepl(mode, in)
+			attr := mode == 1 || mode == 3
+			rep, err := h.Eval([]string{"spec.c03.decode " + h.Bool(attr) + " " + h.Hex(in), "spec.c03.decode " + h.Bool(attr) + " " + h.Hex(out)})
+			if err != nil {
+				return err
+			}
+			a, _, _ := h.DecodeReply(rep[0])
+			b, _, _ := h.DecodeReply(rep[1])
+			c.R.AddKnown(k.ID, !bytes.Equal(a, b), k.What, fmt.Sprintf("%s decodes to %s, input decodes to %s", h.Q(out), h.Q(b), h.Q(a)))
+		}
+	}
+	return nil
+}
+
+// ---------- inputs of /repo/html/html_test.go (first string of every {"…", "…"} pair) ----------
+
+func c03TestInputs(repo string) (names []string, docs [][]byte) {
+	fset := token.NewFileSet()
+	f, err := goparser.ParseFile(fset, filepath.Join(repo, "html", "html_test.go"), nil, 0)
+	if err != nil {
+		return
+	}
+	seen := map[string]bool{}
+	ast.Inspect(f, func(n ast.Node) bool {
+		fd, ok := n.(*ast.FuncDecl)
+		if ok && (strings.Contains(fd.Name.Name, "Template") || strings.Contains(fd.Name.Name, "Error")) {
+			return false
+		}
+		cl, ok := n.(*ast.CompositeLit)
+		if !ok || cl.Type != nil || len(cl.Elts) != 2 {
+			return true
+		}
+		a, ok1 := cl.Elts[0].(*ast.BasicLit)
+		b, ok2 := cl.Elts[1].(*ast.BasicLit)
+		if !ok1 || !ok2 || a.Kind != token.STRING || b.Kind != token.STRING {
+			return true
+		}
+		s, err := strconv.Unquote(a.Value)
+		if err != nil || seen[s] || s == "" {
+			return true
+		}
+		seen[s] = true
+		names = append(names, "html_test.go:"+strconv.Itoa(fset.Position(a.Pos()).Line)+" "+h.Q([]byte(s)))
+		docs = append(docs, []byte(s))
+		return true
+	})
+	return
 }
